@@ -112,6 +112,20 @@ def gen_cases(tier, seed):
                        n=n, L=L, rs=rs, xc="nested", yseries=False)
             yield dict(kind="clf", est="CENS", opt=3, cols=2, labels=lab, balanced=True, fam=fam,
                        n=n, L=L, rs=rs, xc="nested", yseries=False)
+    # exact ties: one series occurs in the training panel under two labels that are NOT the
+    # first of classes_, and the apply set contains it (vote ties between non-leading classes)
+    for name in ("BOSS", "IBOSS", "CBOSS", "TSF"):
+        for lab in ("123", "bac", "neg", "four"):
+            for rs in range(6):
+                fam, n, L = panels[rs % 3]
+                yield dict(kind="clf", est=name, opt=0, cols=1, labels=lab, balanced=True,
+                           fam=fam, n=n, L=L, rs=rs, xc="nested", yseries=False, dup=True)
+    # weakly separated classes: the members of a small BOSS ensemble disagree, so that vote ties
+    # between classes other than the first of classes_ occur
+    for lab in ("four", "fourstr"):
+        for noise in range(20):
+            for msize in (2, 4):
+                yield dict(kind="bossties", labels=lab, noise=noise, msize=msize)
     # series whose level is large compared with their variation (one-pass moment formulas
     # cancel there): the forests' white-box oracle on panels shifted by 1e7 / 1e8
     for level in (1e7, 1e8):
@@ -200,8 +214,10 @@ def _run_case(case):
         return _run_reg(case, res)
     if case["kind"] == "censcols":
         return _run_censcols(case, res)
+    if case["kind"] == "bossties":
+        return _run_bossties(case, res)
     name = case["est"]
-    labels = P.LABEL_SETS[case["labels"]]
+    labels = P.LABEL_SETS.get(case["labels"]) or P.LABEL_SETS_EXTRA[case["labels"]]
     k = len(labels)
     # non-integer float labels are refused by scikit-learn's target-type check in several
     # places; keyed apart so that this one cause does not mask other fit/score failures
@@ -215,6 +231,15 @@ def _run_case(case):
     X, Xa = _lift(X, case.get("level")), _lift(Xa, case.get("level"))
     Xt = Xa + P.select(X, [0, 1, 2, 5])
     kt = ka + [ks[i] for i in (0, 1, 2, 5)]
+    if case.get("dup"):
+        order = sorted(range(k), key=lambda j: (str(type(labels[j])), labels[j]))
+        ca, cb = order[1], order[-1]  # two classes that are not the first of classes_
+        ia = [i for i, kk in enumerate(ks) if kk == ca]
+        ib = [i for i, kk in enumerate(ks) if kk == cb]
+        for a_, b_ in zip(ia[:2], ib[:2]):
+            X[b_] = [list(col) for col in X[a_]]
+        Xt = Xt[:8] + [X[ia[0]], X[ia[1]]]
+        kt = kt[:8] + [ca, cb]
     # test labels: true ones, two of them deliberately replaced by another class
     kt_lab = list(kt)
     kt_lab[1] = (kt_lab[1] + 1) % k
@@ -374,6 +399,63 @@ def _run_case(case):
         res.evals += 1
     res.nt(tuple(sorted((a, str(b)) for a, b in case.items())))
     res.outcome("%s:done" % name)
+    return res
+
+
+def _weak_panel(noise, k, n_per_class, L):
+    """classes differ only by a weak sinusoid under a deterministic hash noise of unit size"""
+    import math
+
+    X, ks = [], []
+    for j in range(n_per_class):
+        for c in range(k):
+            i = j * k + c
+            row = []
+            for t in range(L):
+                h = math.sin(12.9898 * (i + 1) + 78.233 * (t + 1) + 37.719 * (noise + 1)) * 43758.5453
+                row.append(0.6 * math.sin(2 * math.pi * (c + 1) * t / L) + 2.4 * (h - math.floor(h) - 0.5))
+            X.append([row])
+            ks.append(c)
+    return X, ks
+
+
+def _run_bossties(case, res):
+    from sktime.classification.dictionary_based import BOSSEnsemble
+
+    labels = P.LABEL_SETS_EXTRA[case["labels"]]
+    k = len(labels)
+    X, ks = _weak_panel(case["noise"], k, 8, 24)
+    y = P.label_array(labels, ks)
+    Xtr, ytr, Xte = X[:16], y[:16], X[16:]
+    clf = BOSSEnsemble(max_ensemble_size=case["msize"], min_window=8, random_state=case["noise"])
+    o = call(lambda: clf.fit(P.to_nested(Xtr, "dim"), ytr))
+    if not o.ok:
+        res.violate("BOSS:ties:fit:raises", "fit raised", observed=o.brief())
+        return res
+    o = call(lambda: (np.asarray(clf.predict_proba(P.to_nested(Xte, "dim")), dtype=float),
+                      np.asarray(clf.predict(P.to_nested(Xte, "dim")))))
+    if not o.ok:
+        res.violate("BOSS:ties:predict:raises", "predict / predict_proba raised",
+                    observed=o.brief())
+        return res
+    Pm, pred = o.value
+    classes = list(clf.classes_)
+    res.evals += len(Xte)
+    ties = 0
+    for i in range(len(Xte)):
+        top = Pm[i].max()
+        allowed = [classes[j] for j in range(len(classes)) if Pm[i][j] >= top - 1e-12]
+        if len(allowed) > 1 and classes[0] not in allowed:
+            ties += 1
+        if pred[i] not in allowed:
+            res.violate("BOSS:argmax", "predict returns a label whose predicted probability is "
+                        "not maximal (vote tie)", expected=dict(classes=[str(c) for c in classes],
+                                                                proba=Pm[i].tolist()),
+                        observed=str(pred[i]))
+            return res
+    res.outcome("bossties:ties=%d" % min(ties, 3))
+    if ties:
+        res.nt(tuple(sorted((a, str(b)) for a, b in case.items())))
     return res
 
 
